@@ -1056,7 +1056,7 @@ static int vc_motion(int cmd)
 	if (r1 == r2 && o1 > o2)
 		swap(&o1, &o2);
 	o1 = ren_noeol(lbuf_get(xb, r1), o1);
-	if (!lnmode && strchr("fFtTeE%", mv))
+	if (!lnmode && strchr("fteE%", mv))	/* F and T stop before the cursor */
 		if (o2 < lbuf_eol(xb, r2))
 			o2 = ren_noeol(lbuf_get(xb, r2), o2) + 1;
 	if (cmd == 'y')
